@@ -99,7 +99,7 @@ func c14Routing(c *Ctx) {
 				}
 			}
 			if call == nil {
-				c.Bad("R14.3", fn.String(), "slots", fn.Pos(), "does not call %s", helper)
+				c.Bad("R14.3", FStr(fn), "slots", fn.Pos(), "does not call %s", helper)
 				continue
 			}
 			a := Args(call)[1:] // drop receiver
@@ -122,7 +122,7 @@ func c14Routing(c *Ctx) {
 			case "ln":
 				want = []string{PN(ps[0]), "nil"}
 			}
-			c.Check(strings.Join(got, "|") == strings.Join(want, "|") && Desc(Args(call)[0]) == "s", "R14.3", fn.String(), "slots", call.Pos(), "%s passes (template, fmtArgs, context) = %v (want %v)", n+suf, got, want)
+			c.Check(strings.Join(got, "|") == strings.Join(want, "|") && Desc(Args(call)[0]) == "s", "R14.3", FStr(fn), "slots", call.Pos(), "%s passes (template, fmtArgs, context) = %v (want %v)", n+suf, got, want)
 		}
 	}
 	for _, m := range []string{"With", "WithLazy"} {
@@ -138,7 +138,7 @@ func c14Routing(c *Ctx) {
 				ok = st.Field == "base" && strings.HasPrefix(d, m+"(s.base, sweetenFields(s, args)")
 			}
 		}
-		c.Check(ok, "R14.3", fn.String(), "sweetens-then-delegates", fn.Pos(), "%s wraps base.%s(sweetenFields(args)...) in a new SugaredLogger", m, m)
+		c.Check(ok, "R14.3", FStr(fn), "sweetens-then-delegates", fn.Pos(), "%s wraps base.%s(sweetenFields(args)...) in a new SugaredLogger", m, m)
 	}
 }
 
@@ -149,7 +149,7 @@ func c14Messages(c *Ctx) {
 
 // c14Inline: helpers of the sugared front end that are explored inline when following a message to Logger.Check.
 func c14Inline(h *ssa.Function) bool {
-	return h.Pkg != nil && h.Pkg.Pkg.Path() == ZapPath && !strings.HasPrefix(h.String(), "(*go.uber.org/zap.Logger).") && h.Name() != "sweetenFields"
+	return h.Pkg != nil && h.Pkg.Pkg.Path() == ZapPath && !strings.HasPrefix(FStr(h), "(*go.uber.org/zap.Logger).") && FNm(h) != "sweetenFields"
 }
 
 func c14Resolve(st *ConcState, v ssa.Value) ssa.Value {
@@ -171,7 +171,7 @@ func c14MessageLn(c *Ctx) {
 	if !c.Anchor("R14.4", "zap.SugaredLogger.logln", fn != nil && len(fn.Params) == 4) {
 		return
 	}
-	name := fn.String()
+	name := FStr(fn)
 	argsP := fn.Params[2]
 	isSprintln := func(st *ConcState, v ssa.Value) (*ssa.Call, bool) {
 		cl, ok := c14Resolve(st, v).(*ssa.Call)
@@ -267,7 +267,7 @@ func c14MessageF(c *Ctx) {
 	if !c.Anchor("R14.4", "zap.SugaredLogger.log", fn != nil && len(fn.Params) == 5) {
 		return
 	}
-	name := fn.String()
+	name := FStr(fn)
 	tmplP, argsP := fn.Params[2], fn.Params[3]
 	var lin func(st *ConcState, v ssa.Value, d int) (a, b int64, ok bool)
 	lin = func(st *ConcState, v ssa.Value, d int) (int64, int64, bool) {
